@@ -21,6 +21,12 @@ def runeError : Nat := 0xFFFD
 
 def isCont (b : UInt8) : Bool := 0x80 ≤ b && b ≤ 0xBF
 
+/-- second-byte ranges of three- and four-byte sequences (utf8's `acceptRanges`) -/
+def lo3 (b0 : UInt8) : UInt8 := if b0 == 0xE0 then 0xA0 else 0x80
+def hi3 (b0 : UInt8) : UInt8 := if b0 == 0xED then 0x9F else 0xBF
+def lo4 (b0 : UInt8) : UInt8 := if b0 == 0xF0 then 0x90 else 0x80
+def hi4 (b0 : UInt8) : UInt8 := if b0 == 0xF4 then 0x8F else 0xBF
+
 /-- `utf8.DecodeRune`: (rune, width); invalid or short input gives (RuneError, 1); empty (RuneError, 0). -/
 def decodeRune : Bytes → Nat × Nat
   | [] => (runeError, 0)
@@ -34,18 +40,14 @@ def decodeRune : Bytes → Nat × Nat
     else if 0xE0 ≤ b0 && b0 ≤ 0xEF then
       match rest with
       | b1 :: b2 :: _ =>
-        let lo : UInt8 := if b0 == 0xE0 then 0xA0 else 0x80
-        let hi : UInt8 := if b0 == 0xED then 0x9F else 0xBF
-        if lo ≤ b1 && b1 ≤ hi && isCont b2 then
+        if lo3 b0 ≤ b1 && b1 ≤ hi3 b0 && isCont b2 then
           ((b0.toNat % 16) * 4096 + (b1.toNat % 64) * 64 + b2.toNat % 64, 3)
         else (runeError, 1)
       | _ => (runeError, 1)
     else if 0xF0 ≤ b0 && b0 ≤ 0xF4 then
       match rest with
       | b1 :: b2 :: b3 :: _ =>
-        let lo : UInt8 := if b0 == 0xF0 then 0x90 else 0x80
-        let hi : UInt8 := if b0 == 0xF4 then 0x8F else 0xBF
-        if lo ≤ b1 && b1 ≤ hi && isCont b2 && isCont b3 then
+        if lo4 b0 ≤ b1 && b1 ≤ hi4 b0 && isCont b2 && isCont b3 then
           ((b0.toNat % 8) * 262144 + (b1.toNat % 64) * 4096 + (b2.toNat % 64) * 64 + b3.toNat % 64, 4)
         else (runeError, 1)
       | _ => (runeError, 1)
@@ -80,6 +82,7 @@ inductive Msg
   | unexpected | missingParen | expectedKV | expectedValue | listSep | expectedKVorSub
   | expectedKey | nothingToMatch | missingParenProj | expectedOrder
   | configInFilter | emptyKey | unknownOrder | fixedConfig | unitInProj
+  | fuel   -- model only: recursion fuel exhausted (never happens: `parse_total`)
   deriving Repr, DecidableEq, BEq
 
 def Msg.name : Msg → String
@@ -89,7 +92,7 @@ def Msg.name : Msg → String
   | .expectedKVorSub => "kvorsub" | .expectedKey => "key" | .nothingToMatch => "nothing"
   | .missingParenProj => "parenproj" | .expectedOrder => "order" | .configInFilter => "config"
   | .emptyKey => "emptykey" | .unknownOrder => "unknownorder" | .fixedConfig => "fixedconfig"
-  | .unitInProj => "unit"
+  | .unitInProj => "unit" | .fuel => "fuel"
 
 structure Err where
   off : Int
